@@ -194,6 +194,7 @@ type LoopRec struct {
 	Post      ast.Stmt
 	HeadEnv   map[types.Object]Term
 	HeadEpoch int
+	Quiet     bool // no iteration writes memory: the loop body sees the memory state of the loop's entry
 }
 
 type Path struct {
@@ -1042,49 +1043,79 @@ func (x *SX) forStmt(v *ast.ForStmt, st *sxState) []outcome {
 		}
 		x.loopID++
 		id := x.loopID
-		rec := &LoopRec{ID: id, Node: v, For: v, Post: v.Post, Init: map[types.Object]Term{}, HeadEpoch: oc.st.epoch + 1}
-		inside := func(o types.Object) bool { return o.Pos() >= v.Body.Pos() && o.Pos() < v.Body.End() }
-		// remember initial values of the loop-carried variables
-		carried := x.assignedIn(v.Body)
-		if v.Post != nil {
-			carried = append(carried, x.assignedIn(v.Post)...)
+		o1, rec := x.forOnce(v, oc, id, 1)
+		if loopQuiet(rec) {
+			// nothing in the loop writes memory: loads inside it see the state at its entry (no new memory epoch)
+			o1, rec = x.forOnce(v, oc, id, 0)
+			rec.Quiet = true
 		}
-		for _, o := range carried {
-			if t, ok := oc.st.env[o]; ok && !inside(o) {
-				rec.Init[o] = t
-			}
-		}
-		head := oc.st.clone()
-		x.havoc(v.Body, head, id, inside)
-		if v.Post != nil {
-			x.havoc(v.Post, head, id, inside)
-		}
-		rec.HeadEnv = copyEnv(head.env)
-		iter := &sxState{env: copyEnv(head.env), epoch: head.epoch + 1, stack: head.stack, tsub: head.tsub}
-		if v.Cond != nil {
-			rec.CondT = simplify(x.eval(v.Cond, iter))
-		}
-		rec.Iter = x.finish(x.block(v.Body.List, iter))
-		after := head
-		after.epoch += 1000 // whatever the loop did, later loads are distinct from earlier ones
-		after.steps = append(after.steps, Step{Kind: "loop", Loop: rec, Node: v})
-		// returns / panics from inside the loop leave the function: surface them as separate outcomes
-		for _, p := range rec.Iter {
-			if p.End == "return" || p.End == "panic" {
-				es := after.clone()
-				es.steps = append(es.steps[:len(es.steps)-1], Step{Kind: "loop", Loop: rec, Node: v})
-				es.steps = append(es.steps, p.Steps...)
-				if p.Why != "" && es.why == "" {
-					es.why = p.Why
-				}
-				res = append(res, outcome{kind: p.End, vals: p.Vals, node: p.Node, st: es})
-			} else if p.Why != "" && after.why == "" {
-				after.why = p.Why
-			}
-		}
-		res = append(res, outcome{st: after})
+		res = append(res, o1...)
 	}
 	return res
+}
+
+// loopQuiet: no iteration path stores to memory, calls an effectful function, starts a goroutine or defers.
+func loopQuiet(rec *LoopRec) bool {
+	for _, p := range rec.Iter {
+		if p.Why != "" {
+			return false
+		}
+		for _, s := range p.Steps {
+			switch {
+			case s.Kind == "cond":
+			case s.Kind == "loop" && s.Loop != nil && s.Loop.Quiet:
+			default:
+				return false
+			}
+		}
+	}
+	return true
+}
+
+func (x *SX) forOnce(v *ast.ForStmt, oc outcome, id int, bump int) ([]outcome, *LoopRec) {
+	var res []outcome
+	rec := &LoopRec{ID: id, Node: v, For: v, Post: v.Post, Init: map[types.Object]Term{}, HeadEpoch: oc.st.epoch + bump}
+	inside := func(o types.Object) bool { return o.Pos() >= v.Body.Pos() && o.Pos() < v.Body.End() }
+	// remember initial values of the loop-carried variables
+	carried := x.assignedIn(v.Body)
+	if v.Post != nil {
+		carried = append(carried, x.assignedIn(v.Post)...)
+	}
+	for _, o := range carried {
+		if t, ok := oc.st.env[o]; ok && !inside(o) {
+			rec.Init[o] = t
+		}
+	}
+	head := oc.st.clone()
+	x.havoc(v.Body, head, id, inside)
+	if v.Post != nil {
+		x.havoc(v.Post, head, id, inside)
+	}
+	rec.HeadEnv = copyEnv(head.env)
+	iter := &sxState{env: copyEnv(head.env), epoch: head.epoch + bump, stack: head.stack, tsub: head.tsub}
+	if v.Cond != nil {
+		rec.CondT = simplify(x.eval(v.Cond, iter))
+	}
+	rec.Iter = x.finish(x.block(v.Body.List, iter))
+	after := head
+	after.epoch += 1000 * bump // whatever the loop did, later loads are distinct from earlier ones
+	after.steps = append(after.steps, Step{Kind: "loop", Loop: rec, Node: v})
+	// returns / panics from inside the loop leave the function: surface them as separate outcomes
+	for _, p := range rec.Iter {
+		if p.End == "return" || p.End == "panic" {
+			es := after.clone()
+			es.steps = append(es.steps[:len(es.steps)-1], Step{Kind: "loop", Loop: rec, Node: v})
+			es.steps = append(es.steps, p.Steps...)
+			if p.Why != "" && es.why == "" {
+				es.why = p.Why
+			}
+			res = append(res, outcome{kind: p.End, vals: p.Vals, node: p.Node, st: es})
+		} else if p.Why != "" && after.why == "" {
+			after.why = p.Why
+		}
+	}
+	res = append(res, outcome{st: after})
+	return res, rec
 }
 
 func (x *SX) rangeStmt(v *ast.RangeStmt, st *sxState) []outcome {
@@ -1096,48 +1127,59 @@ func (x *SX) rangeStmt(v *ast.RangeStmt, st *sxState) []outcome {
 		}
 		x.loopID++
 		id := x.loopID
-		rec := &LoopRec{ID: id, Node: v, Range: v, Over: ev.val, Init: map[types.Object]Term{}, HeadEpoch: ev.st.epoch + 1}
-		inside := func(o types.Object) bool { return o.Pos() >= v.Pos() && o.Pos() < v.End() }
-		for _, o := range x.assignedIn(v.Body) {
-			if t, ok := ev.st.env[o]; ok && !inside(o) {
-				rec.Init[o] = t
-			}
+		o1, rec := x.rangeOnce(v, ev, id, 1)
+		if loopQuiet(rec) {
+			o1, rec = x.rangeOnce(v, ev, id, 0)
+			rec.Quiet = true
 		}
-		head := ev.st.clone()
-		x.havoc(v.Body, head, id, inside)
-		if id, ok := v.Key.(*ast.Ident); ok && id.Name != "_" {
-			rec.Key = x.c.obj(id)
-		}
-		if id, ok := v.Value.(*ast.Ident); ok && id.Name != "_" {
-			rec.Value = x.c.obj(id)
-		}
-		rec.HeadEnv = copyEnv(head.env)
-		iter := &sxState{env: copyEnv(head.env), epoch: head.epoch + 1, stack: head.stack, tsub: head.tsub}
-		if rec.Key != nil {
-			iter.env[rec.Key] = TVar{rec.Key}
-		}
-		if rec.Value != nil {
-			iter.env[rec.Value] = TVar{rec.Value}
-		}
-		rec.Iter = x.finish(x.block(v.Body.List, iter))
-		after := head
-		after.epoch += 1000
-		after.steps = append(after.steps, Step{Kind: "loop", Loop: rec, Node: v})
-		for _, p := range rec.Iter {
-			if p.End == "return" || p.End == "panic" {
-				es := after.clone()
-				es.steps = append(es.steps, p.Steps...)
-				if p.Why != "" && es.why == "" {
-					es.why = p.Why
-				}
-				res = append(res, outcome{kind: p.End, vals: p.Vals, node: p.Node, st: es})
-			} else if p.Why != "" && after.why == "" {
-				after.why = p.Why
-			}
-		}
-		res = append(res, outcome{st: after})
+		res = append(res, o1...)
 	}
 	return res
+}
+
+func (x *SX) rangeOnce(v *ast.RangeStmt, ev evalOut, id int, bump int) ([]outcome, *LoopRec) {
+	var res []outcome
+	rec := &LoopRec{ID: id, Node: v, Range: v, Over: ev.val, Init: map[types.Object]Term{}, HeadEpoch: ev.st.epoch + bump}
+	inside := func(o types.Object) bool { return o.Pos() >= v.Pos() && o.Pos() < v.End() }
+	for _, o := range x.assignedIn(v.Body) {
+		if t, ok := ev.st.env[o]; ok && !inside(o) {
+			rec.Init[o] = t
+		}
+	}
+	head := ev.st.clone()
+	x.havoc(v.Body, head, id, inside)
+	if id, ok := v.Key.(*ast.Ident); ok && id.Name != "_" {
+		rec.Key = x.c.obj(id)
+	}
+	if id, ok := v.Value.(*ast.Ident); ok && id.Name != "_" {
+		rec.Value = x.c.obj(id)
+	}
+	rec.HeadEnv = copyEnv(head.env)
+	iter := &sxState{env: copyEnv(head.env), epoch: head.epoch + bump, stack: head.stack, tsub: head.tsub}
+	if rec.Key != nil {
+		iter.env[rec.Key] = TVar{rec.Key}
+	}
+	if rec.Value != nil {
+		iter.env[rec.Value] = TVar{rec.Value}
+	}
+	rec.Iter = x.finish(x.block(v.Body.List, iter))
+	after := head
+	after.epoch += 1000 * bump
+	after.steps = append(after.steps, Step{Kind: "loop", Loop: rec, Node: v})
+	for _, p := range rec.Iter {
+		if p.End == "return" || p.End == "panic" {
+			es := after.clone()
+			es.steps = append(es.steps, p.Steps...)
+			if p.Why != "" && es.why == "" {
+				es.why = p.Why
+			}
+			res = append(res, outcome{kind: p.End, vals: p.Vals, node: p.Node, st: es})
+		} else if p.Why != "" && after.why == "" {
+			after.why = p.Why
+		}
+	}
+	res = append(res, outcome{st: after})
+	return res, rec
 }
 
 // ---------------------------------------------------------------- expressions
